@@ -1,1 +1,18 @@
 import AL.Props.C20
+#print axioms AL.C20.sanitize_length
+#print axioms AL.C20.sanitize_pointwise
+#print axioms AL.C20.sanitize_first
+#print axioms AL.C20.sanitize_idempotent
+#print axioms AL.C20.sanitize_unchanged
+#print axioms AL.C20.shell_precedence
+#print axioms AL.C20.no_silent_drop
+#print axioms AL.C20.inv_init
+#print axioms AL.C20.inv_step
+#print axioms AL.C20.inv_reachable
+#print axioms AL.C20.bounded
+#print axioms AL.C20.collected
+#print axioms AL.C20.no_add_after_wait
+#print axioms AL.C20.progress
+#print axioms AL.C20.progress_needs_permit
+#print axioms AL.C20.can_return
+#print axioms AL.C20.shape_reachable
